@@ -52,8 +52,11 @@ pub fn ignore_filter(entry: &DirEntry, ignore: &Option<Gitignore>) -> bool {
             if entry.depth() == 0 {
                 return true;
             }
-            let path = entry.path();
-            let m = gi.matched(path, path.is_dir());
+            // A trailing-slash pattern matches directories only, and
+            // to git a symbolic link is never a directory: take the
+            // type of the entry as walked (the link itself unless
+            // links are being followed), not of what it points to.
+            let m = gi.matched(entry.path(), entry.file_type().is_dir());
             !m.is_ignore()
         }
     }
